@@ -1088,8 +1088,11 @@ fn group_by_suffix(
         .max_suffix_size
         .unwrap_or_else(|| suffix_len(&ctx.devices, flat_iter(&groups)));
     let suffix_threshold = suffix_threshold(&ctx.devices, flat_iter(&groups));
-    let pre_filter =
-        |g: &FileGroup<FileInfo>| g.file_len >= suffix_threshold && g.unique_count() > 1;
+    // If the suffix covered the whole file, the suffix hash could equal the prefix hash
+    // computed earlier over the same bytes, and the two would cancel each other out when combined.
+    let pre_filter = |g: &FileGroup<FileInfo>| {
+        g.file_len >= suffix_threshold && g.file_len > suffix_len && g.unique_count() > 1
+    };
     let file_count = unique_file_count(groups.iter().filter(|g| pre_filter(g)));
     let progress = ctx.log.progress_bar(
         &ctx.phases.format(Phase::GroupBySuffix),
